@@ -43,7 +43,7 @@ func newExec(ld *Loader, db *ContractDB, pkg *Pkg, cf *ContractFile, specs *Spec
 		tenv: map[string]string{}, typeParams: map[string]bool{}, adts: map[string]adtSpec{}, localSpec: map[string]localSig{},
 		strLits: map[string]Term{}, opts: map[string]string{}, assumed: map[string]bool{},
 		closures: map[types.Object]*ast.FuncLit{}, knownFns: map[string]knownFn{}, tags: map[string]Term{},
-		spawnedRepeatedly: map[*ast.FuncLit]bool{}, usedAfter: map[types.Object]bool{}}
+		spawnedRepeatedly: map[*ast.FuncLit]bool{}, usedAfter: map[types.Object]bool{}, wfSeen: map[string]bool{}}
 	return x
 }
 
@@ -775,7 +775,7 @@ func (x *Exec) subtypeUnit(u *Unit) {
 		sub[otps.At(i).Obj().Name()] = x.sortOf(owner.TypeArgs().At(i))
 	}
 	x.nilCheck(st, recv, nil)
-	if pc.Pure {
+	if pc.Pure && x.statelessIface(in) {
 		if ms, ok := x.methodUF(in, u.Method); ok && len(args) == len(ms.args) {
 			x.resultOverride = []Term{tApp(ms.ret, ms.fname, append([]Term{recv}, args...)...)}
 		}
